@@ -106,6 +106,7 @@ func (rule *RuleExpression) VisitWorkflowPre(n *Workflow) error {
 
 			for _, i := range e.Inputs {
 				rule.checkString(i.Description, "")
+				rule.checkBool(i.Required, "")
 				// Check default value before setting type to `ity` because referring myself should cause an error.
 				//   inputs:
 				//     recursive:
@@ -151,6 +152,7 @@ func (rule *RuleExpression) VisitWorkflowPre(n *Workflow) error {
 				for id, s := range e.Secrets {
 					sty.Props[id] = StringType{}
 					rule.checkString(s.Description, "")
+					rule.checkBool(s.Required, "")
 				}
 				rule.secretsTy = sty
 			}
